@@ -3,6 +3,7 @@ exhaustive TLC families + replay (spec -> code) and recorded traces of
 generated runs validated by TLC (code -> spec), with per-property clause sets."""
 from __future__ import annotations
 import importlib, json, multiprocessing as mp, os, sys, time
+from .par import SafePool
 from . import tlc, vmmc, vmtrace
 from .common import Report, REPO
 
@@ -27,7 +28,15 @@ def _record_one(job):
     gen, seed, kw = job
     modname, fn = gen.split(':')
     mod = importlib.import_module(modname)
-    run_kw = getattr(mod, fn)(seed, **kw)
+    try:
+        run_kw = getattr(mod, fn)(seed, **kw)
+    except Exception as e:
+        # a generator that calls the library's builders: a builder raising is not an execution to validate here
+        # (the builders' own properties judge it); counted, never silent
+        from .scncheck import raised_in_repo
+        if not raised_in_repo(e):
+            raise
+        return {'genfail': f'{gen}/{seed}: {type(e).__name__}: {e}'[:300]}
     meta = run_kw.pop('meta', None)
     import signal
 
@@ -48,11 +57,17 @@ def _record_one(job):
     return t
 
 
+GENFAILS: list = []
+
+
 def record(jobs: list, procs: int = NPROC) -> list:
     if len(jobs) < 40:
-        return [_record_one(j) for j in jobs]
-    with mp.get_context('fork').Pool(procs) as pool:
-        return pool.map(_record_one, jobs, chunksize=max(1, len(jobs) // (procs * 8)))
+        out = [_record_one(j) for j in jobs]
+    else:
+        with SafePool(procs) as pool:
+            out = pool.map(_record_one, jobs, chunksize=max(1, len(jobs) // (procs * 8)))
+    GENFAILS.extend(t['genfail'] for t in out if 'genfail' in t)
+    return [t for t in out if 'genfail' not in t]
 
 
 def _replay_chunk(args):
@@ -69,7 +84,7 @@ def replay_all(records: list, procs: int = NPROC, **opts) -> list:
         return _replay_chunk((records, opts))
     n = procs * 4
     chunks = [records[i::n] for i in range(n)]
-    with mp.get_context('fork').Pool(procs) as pool:
+    with SafePool(procs) as pool:
         res = pool.map(_replay_chunk, [(c, opts) for c in chunks])
     out = [None] * len(records)
     for ci, r in enumerate(res):
@@ -113,6 +128,8 @@ def known_signature(prop: str, failed: set, ev: dict | None, trace: dict) -> str
 
 def check_traces(rep: Report, traces: list, label: str, shards: int = 12):
     """TLC-validate recorded traces; account verdicts on the report."""
+    if GENFAILS:
+        rep.extra['builder_calls_that_raised_in_generators'] = {'count': len(GENFAILS), 'first': GENFAILS[0]}
     if not traces:
         return
     verdicts, results = vmtrace.validate(traces, shards=shards)
